@@ -101,6 +101,11 @@ def run(ctx):
     dev = bool(os.environ.get('VERIF_C17_DEV'))      # development aid: skip the (tree-independent) model-checking runs
     box, errs = {}, {}
 
+    # the four TLC runs and the harness build are independent: with >= 12 CPUs they run side by side (4 workers each),
+    # otherwise one after the other with at most NCPU workers (never more than NCPU busy processes)
+    parallel = vlib.NCPU >= 12
+    wk = 4 if parallel else max(1, min(4, vlib.NCPU))
+
     def bg(name, fn):
         def wrap():
             try:
@@ -109,23 +114,27 @@ def run(ctx):
                 errs[name] = e
         t = threading.Thread(target=wrap, name=name)
         t.start()
+        if not parallel:
+            t.join()
         return t
 
     series = [1, 2, 3] if quick else [1, 2, 3, 4]
-    nseq = 100 if quick else 500
-    nconc = 100 if quick else 600
-    wk = 4
+    # behaviours per family (TLC writes `num` per simulation worker)
+    nseq = (240 if quick else 2000) // wk
+    nconc = (240 if quick else 2400) // wk
+    if dev:
+        nseq = nconc = int(os.environ.get('VERIF_C17_DEV_N', '120')) // wk
     ths = [bg('bin', lambda: ctx.go_build('bdel'))]
     if not dev:
         # 1. model checking (VIEW hides hist; history not even recorded): protocol with two concurrent writers, every interleaving
-        ths.append(bg('mc', lambda: ctx.tlc_must_pass('BucketDelete', f'BucketDelete.MC_{tier}.cfg', timeout=900 if quick else 1700,
-                                                      coverage=True, workers=4 if quick else 8, tag='mc')))
+        ths.append(bg('mc', lambda: ctx.tlc_must_pass('BucketDelete', f'BucketDelete.MC_{tier}.cfg', timeout=1700,
+                                                      coverage=True, workers=wk, tag='mc')))
         # 2. model checking of the delete alone over every dataset / predicate / range of a core of the generation domain
-        ths.append(bg('mcseq', lambda: ctx.tlc_must_pass('BucketDelete', f'BucketDelete.MCseq_{tier}.cfg', timeout=900 if quick else 1700,
-                                                         coverage=True, workers=4, tag='mcseq')))
+        ths.append(bg('mcseq', lambda: ctx.tlc_must_pass('BucketDelete', f'BucketDelete.MCseq_{tier}.cfg', timeout=1700,
+                                                         coverage=True, workers=wk, tag='mcseq')))
     # 3. behaviours for replay (seeded simulation; the state counts of these runs are reported, their purpose is generation)
-    ths.append(bg('gseq', lambda: gen(ctx, f'BucketDelete.Gen_seq_{tier}.cfg', 'seq', series, nseq, wk, 26 if quick else 30, 900)))
-    ths.append(bg('gconc', lambda: gen(ctx, f'BucketDelete.Gen_conc_{tier}.cfg', 'conc', [1, 2, 3], nconc, wk, 40 if quick else 46, 900)))
+    ths.append(bg('gseq', lambda: gen(ctx, f'BucketDelete.Gen_seq_{tier}.cfg', 'seq', series, nseq, wk, 26 if quick else 30, 1700)))
+    ths.append(bg('gconc', lambda: gen(ctx, f'BucketDelete.Gen_conc_{tier}.cfg', 'conc', [1, 2, 3], nconc, wk, 40 if quick else 46, 1700)))
     for t in ths:
         t.join()
     for name in ('mc', 'mcseq', 'gseq', 'gconc', 'bin'):
@@ -143,7 +152,7 @@ def run(ctx):
         # thorough: every behaviour under a second concretisation
         cases = cases + [dict(c, conc=1) for c in cases]
     binary = box['bin']
-    res, lines = ctx.replay(binary, cases, procs=min(vlib.NCPU, 12), par=1, timeout=700 if quick else 1600, case_timeout='150s')
+    res, lines = ctx.replay(binary, cases, procs=min(vlib.NCPU, 12), par=1, timeout=1700, case_timeout='150s')
     ctx.absorb(res, lines)
     ctx.exhaustive = False
     blocked = sum((x.get('extra') or {}).get('blocked_writers', 0) for x in res if x.get('ok'))
